@@ -28,10 +28,12 @@ WInit(m, c) == MInit(m) /\ now = 0 /\ dq = <<>> /\ cf = c
 WTAttempted(claimed) == cf.enabled /\ TryReserveRes(claimed)
 \* may the blob stay in memory (reservation admitted, stream ok, metainfo ok, no duplicate)
 WTEligible(k, claimed, f1, metaok) == WTAttempted(claimed) /\ ~f1 /\ metaok /\ AddRes(k)
-\* allowed values of "the blob is in the memory cache when the call returns, added by this call"
-WTAdded(k, claimed, actual, f1, metaok) ==
+\* allowed values of "the blob is in the memory cache when the call returns, added by this call".
+\* A blob whose bytes do not verify against its name (good = FALSE) may be refused by the memory path (that is
+\* property C01's business); C13 only demands that whatever happens is accounted exactly.
+WTAdded(k, claimed, actual, f1, metaok, good) ==
   IF ~WTEligible(k, claimed, f1, metaok) THEN {FALSE}
-  ELSE IF actual = claimed THEN {TRUE}
+  ELSE IF actual = claimed /\ good THEN {TRUE}
   ELSE {FALSE} \cup (IF total + actual <= max THEN {TRUE} ELSE {})
 \* number of callback invocations and reply of the whole call: the memory path never fails the call; the
 \* disk path needs a good stream and a name that verifies
@@ -40,7 +42,7 @@ WTRes(claimed, added, f1, f2, good) ==
   IF added THEN "ok"
   ELSE LET dfail == IF WTAttempted(claimed) THEN f2 ELSE f1 IN IF ~dfail /\ good THEN "ok" ELSE "err"
 WriteThrough(k, claimed, actual, f1, metaok, good, added) ==
-  /\ added \in WTAdded(k, claimed, actual, f1, metaok)
+  /\ added \in WTAdded(k, claimed, actual, f1, metaok, good)
   /\ IF added
      THEN /\ ent' = [ent EXCEPT ![k] = actual]
           /\ born' = [born EXCEPT ![k] = now]
@@ -69,7 +71,7 @@ InMemRes(k) == ent[k] >= 0
 CONSTANTS Cfgs       \* configurations explored by the design model
 MCCfgs == {[enabled |-> TRUE, ttl |-> 1, retries |-> 1], [enabled |-> FALSE, ttl |-> 1, retries |-> 0]}
 WNext == \/ \E k \in Keys, c \in Sz \ {0}, a \in Sz \ {0}, wf \in BOOLEAN, mo \in BOOLEAN, g \in BOOLEAN :
-              \E ad \in WTAdded(k, c, a, wf, mo) : WriteThrough(k, c, a, wf, mo, g, ad)
+              \E ad \in WTAdded(k, c, a, wf, mo, g) : WriteThrough(k, c, a, wf, mo, g, ad)
          \/ Drain \/ Expire \/ Tick(1)
 WSpec == (\E m \in Maxes, c \in Cfgs : WInit(m, c)) /\ [][WNext]_wvars
 
